@@ -120,8 +120,15 @@ class SLowered(SStr):
         s.it = it
         s.tab = tab
         s.L = src.L
-        s.name = (('lower(' if tab == 'lowfix' else 'upper(') + src.name + ')') if src.name else ''
+        s._name = (('lower(' if tab == 'lowfix' else 'upper(') + src.name + ')') if src.name else ''
         s._chars = None
+
+    @property
+    def name(s):
+        # formulas over this string are memoised by name; whoever asks for the name is about to use such a formula,
+        # so the defining constraints of the characters must be on the current path
+        s.chars
+        return s._name
 
     @property
     def n(s):
